@@ -189,7 +189,12 @@ impl Drop for ToolProc {
 
 /// start `dicom-storescp` on a free port writing into `out_dir`; waits until it accepts connections
 pub fn start_storescp(root: &Path, out_dir: &Path, extra: &[&str], cwd: &Path) -> Result<ToolProc, String> {
-    for _attempt in 0..5 {
+    // Port selection is racy by nature (the port is free when probed, taken when the tool binds):
+    // starts are serialised within this process, and a tool that lost the race against another
+    // process is recognised by its exit and replaced.
+    static START: std::sync::Mutex<()> = std::sync::Mutex::new(());
+    let _guard = START.lock().unwrap_or_else(|e| e.into_inner());
+    for _attempt in 0..8 {
         let port = free_port();
         let log = cwd.join(format!("storescp-{port}.log"));
         let lf = std::fs::File::create(&log).map_err(|e| e.to_string())?;
@@ -223,7 +228,13 @@ pub fn start_storescp(root: &Path, out_dir: &Path, extra: &[&str], cwd: &Path) -
             }
             if let Ok(s) = TcpStream::connect_timeout(&format!("127.0.0.1:{port}").parse().unwrap(), Duration::from_millis(200)) {
                 drop(s);
-                return Ok(ToolProc { child, port, log });
+                // somebody listens on the port: make sure it is our child and not a process that
+                // took the port first (ours would then exit with a bind error)
+                std::thread::sleep(Duration::from_millis(40));
+                if let Ok(None) = child.try_wait() {
+                    return Ok(ToolProc { child, port, log });
+                }
+                break;
             }
             if t0.elapsed() > Duration::from_secs(10) {
                 let _ = child.kill();
